@@ -19,7 +19,7 @@ import (
 // the last two entries are literals that span two physical lines
 var c12Lines = []string{"", "# cömment ©", `x = "é"`, "\ty = 2", "z = 3", "s = \"first\nsecond\"", "t = 'a' ~ /b\nc/"}
 
-const c12Preset = `numv = 5; arrv = [1, 2]; objv = {k: 1}; tailv = " and %d"; headv = "%s"`
+const c12Preset = `numv = 5; arrv = [1, 2]; objv = {k: 1}; tailv = " and then, after quite a long stretch of ordinary text that no directive interrupts, %d"; headv = "%s"`
 
 type c12Fault struct {
 	name    string
@@ -177,6 +177,19 @@ func c12LinesCheck(c *fw.Ctx, s c12Spec, faults []c12Fault) *fw.Violation {
 	return nil
 }
 
+// c12Pair runs two programs with the same fault one after the other in this process, without anything in between.
+func c12Pair(c *fw.Ctx, s c12Spec, faults []c12Fault) *fw.Violation {
+	first := c12Spec{Form: "lines", Fault: s.Fault}
+	second := c12Spec{Form: "lines", Fault: s.Fault, Pre: []int{2, 0, 5}, Post: []int{4}}
+	for i, sp := range []c12Spec{first, second, first} {
+		if v := c12LinesCheck(c, sp, faults); v != nil {
+			v.What = fmt.Sprintf("error position (program %d of three run in one process): ", i+1) + strings.TrimPrefix(v.What, "error position: ")
+			return v
+		}
+	}
+	return nil
+}
+
 // c12CLI: the binary's stderr shows the same line, caret and line number.
 func c12CLI(c *fw.Ctx, s c12Spec, faults []c12Fault) *fw.Violation {
 	src, line, f := c12Program(s, faults)
@@ -276,7 +289,7 @@ func init() {
 		ID: "C12",
 		Rule: fmt.Sprintf("programs of a function line, 'BEGIN {', a preset line, m lines before and n lines after one fault line, and '}', the other lines drawn from {blank, a comment with non-ASCII text, a string with a non-ASCII character, a tab-indented statement, a statement}, with LF and CRLF line ends; %d fault lines: ", nf) +
 			"an illegal character, a stray UTF-8 continuation byte and a stray 0x80 at every token boundary of a host line, non-ASCII characters used as identifiers, unexpected tokens, return / break out of place, assignment to a literal, and 21 single-line runtime faults each after 0-3 two-byte characters; " +
-			"oracle (computed from the text): the error kind, Line = the fault line's number, SrcLine = its text (with or without a trailing CR), Col inside the byte range of the offending construct (exactly the byte for an illegal character); the same through the binary's three-line diagnostic, with the program inline and read with -f, with and without a #! first line; " +
+			"oracle (computed from the text): the error kind, Line = the fault line's number, SrcLine = its text (with or without a trailing CR), Col inside the byte range of the offending construct (exactly the byte for an illegal character); each fault also twice in one process at different positions; the same through the binary's three-line diagnostic, with the program inline and read with -f, with and without a #! first line; " +
 			"and, for every failing program of the C11 fault x slot product, the seed splices and 25 runaway recursions (5 shapes x 5 entry points, so that every kind of frame meets the limit), the general law that the error has a position and the quoted line is line N of the text; states = (kind, lines before, line ending)",
 		Plan: func(t fw.Tier) int { return nf + 1 },
 		Bound: func(t fw.Tier) string {
@@ -335,6 +348,11 @@ func init() {
 				}
 				return
 			}
+			// the same fault twice in ONE process, at another line and column the second time: each report is about its own
+			// program. (First in the unit: a failure here can be replayed in a fresh process, a single later case that fails
+			// only because of what an earlier case left behind cannot.)
+			pair := c12Spec{Form: "pair", Fault: u}
+			c.Do(func() any { return pair }, func() *fw.Violation { return c12Pair(c, pair, faults) })
 			pres, posts := seqs(c.Pick(2, 3)), seqs(c.Pick(1, 2))
 			for _, pre := range pres {
 				for _, post := range posts {
@@ -369,6 +387,8 @@ func init() {
 			switch s.Form {
 			case "lines":
 				return c12LinesCheck(c, s, faults)
+			case "pair":
+				return c12Pair(c, s, faults)
 			case "cli":
 				return c12CLI(c, s, faults)
 			}
